@@ -5,7 +5,9 @@ package htlc
 import (
 	"bytes"
 	"encoding/hex"
+	"encoding/json"
 	"fmt"
+	"github.com/cosmos/cosmos-sdk/codec"
 	"math/big"
 	"sort"
 	"strings"
@@ -31,6 +33,10 @@ type Variant struct {
 	Name  string
 	Mode  string // "C03" or "C04"
 	Cross bool   // include cross-chain (HTLT) contracts
+	// InitialHeight of the chain (0 = 1): 204 puts the expiry heights (lock 50 / 51) on the byte boundary 255 / 256
+	InitialHeight int64
+	// UnsetPreviousBlockTime starts the chain from an htlc genesis without previous_block_time (valid)
+	UnsetPreviousBlockTime bool
 }
 
 type contract struct {
@@ -143,10 +149,22 @@ type Driver struct {
 func New(v Variant) func() (*mc.Env, mc.Driver) {
 	return func() (*mc.Env, mc.Driver) {
 		coins := sdk.NewCoins(mc.C("btc", 1000), mc.C("eth", 1000), mc.C("stake", 1000))
-		e := mc.NewEnv(mc.EnvOptions{
-			Balances:     map[string]sdk.Coins{"A": coins, "B": coins, "C": coins, "D": sdk.NewCoins(mc.C("stake", 10))},
-			BlockModules: []string{"htlc"},
-		})
+		opts := mc.EnvOptions{
+			Balances:      map[string]sdk.Coins{"A": coins, "B": coins, "C": coins, "D": sdk.NewCoins(mc.C("stake", 10))},
+			BlockModules:  []string{"htlc"},
+			InitialHeight: v.InitialHeight,
+		}
+		if v.UnsetPreviousBlockTime {
+			opts.GenesisMutators = map[string]func(cdc codec.Codec, raw json.RawMessage) json.RawMessage{
+				htlctypes.ModuleName: func(cdc codec.Codec, raw json.RawMessage) json.RawMessage {
+					var gs htlctypes.GenesisState
+					cdc.MustUnmarshalJSON(raw, &gs)
+					gs.PreviousBlockTime = time.Time{}
+					return cdc.MustMarshalJSON(&gs)
+				},
+			}
+		}
+		e := mc.NewEnv(opts)
 		return e, &Driver{V: v}
 	}
 }
@@ -335,7 +353,7 @@ func (d *Driver) apply(e *mc.Env, s *mc.State, op mc.Op) []mc.Finding {
 		}
 		before := e.Snapshot(s.Ctx, u)
 		out := s.Deliver(e, op.Name, &htlctypes.MsgCreateHTLC{Sender: mc.Addr(t.sender).String(), To: mc.Addr(t.to).String(),
-			ReceiverOnOtherChain: "r", SenderOnOtherChain: "s", Amount: t.amount, HashLock: hex.EncodeToString(hl), Timestamp: ts, TimeLock: t.lock, Transfer: t.transfer})
+			ReceiverOnOtherChain: "r", SenderOnOtherChain: "s", Amount: append(sdk.Coins{}, t.amount...), HashLock: hex.EncodeToString(hl), Timestamp: ts, TimeLock: t.lock, Transfer: t.transfer})
 		if !out.OK {
 			return fs
 		}
@@ -527,9 +545,11 @@ const rule = "state with >= 2 contracts created of which >= 1 still open; distin
 func Parts(mode string) func() []mc.Part {
 	return func() []mc.Part {
 		return []mc.Part{
-			mc.ExplorePartC("plain", New(Variant{Name: "plain", Mode: mode}), 6, 8, false, rule,
+			mc.ExplorePartC("plain", New(Variant{Name: "plain", Mode: mode}), 7, 9, false, rule,
 				&mc.ConfOpts{Stores: []string{"htlc"}, SkipDenoms: map[string]bool{"stake": true}, MaxPaths: 60}),
-			mc.ExplorePart("cross-chain", New(Variant{Name: "cross-chain", Mode: mode, Cross: true}), 5, 7, false, rule),
+			mc.ExplorePart("cross-chain", New(Variant{Name: "cross-chain", Mode: mode, Cross: true}), 6, 8, false, rule),
+			// heights are the keys of the expiry queue: this chain starts at 204, so contracts expire at 254..257
+			mc.ExplorePart("plain-at-height-204", New(Variant{Name: "plain-at-height-204", Mode: mode, InitialHeight: 204}), 6, 8, false, rule),
 		}
 	}
 }
